@@ -6,6 +6,7 @@ import (
 	"bytes"
 	"encoding/hex"
 	"fmt"
+	"math/big"
 	"reflect"
 	"sync"
 	"sync/atomic"
@@ -96,6 +97,52 @@ func c18FillFp(v reflect.Value, t reflect.Type, set func(v reflect.Value)) {
 	}
 }
 
+// c18Scalar: the shared scalar object of a `scalarexp` line: shape 0 = zero, 1 = a small negative value, 2 = a huge negative
+// value (longer than the group order), otherwise 1 .. bits+64 bits, negative two times out of three
+func c18Scalar(r *rng, shape, bits int) *big.Int {
+	var k *big.Int
+	switch shape {
+	case 0:
+		return new(big.Int)
+	case 1:
+		k = big.NewInt(int64(1 + r.intn(1<<16)))
+		return k.Neg(k)
+	case 2:
+		k = r.bigBits(bits + 64 + r.intn(bits))
+		k.SetBit(k, bits+63, 1)
+		return k.Neg(k)
+	}
+	switch r.intn(4) {
+	case 0:
+		k = r.bigBits(1 + r.intn(64))
+	case 1:
+		k = r.bigBits(bits + 1 + r.intn(64))
+	default:
+		k = r.bigBits(bits - r.intn(8))
+	}
+	if k.Sign() == 0 {
+		k.SetInt64(3)
+	}
+	if r.intn(3) != 0 {
+		k.Neg(k)
+	}
+	return k
+}
+
+// c18ScalarWatch: what the observer goroutine of a `scalarexp` line runs: the shared scalars still have their values
+func c18ScalarWatch(k, k2 *big.Int) func() string {
+	ck, ck2 := new(big.Int).Set(k), new(big.Int).Set(k2)
+	return func() string {
+		if k.Sign() != ck.Sign() || k.Cmp(ck) != 0 {
+			return "k(observed-during-the-calls)"
+		}
+		if k2.Sign() != ck2.Sign() || k2.Cmp(ck2) != 0 {
+			return "k2(observed-during-the-calls)"
+		}
+		return ""
+	}
+}
+
 func c18Err(err error) string {
 	if err == nil {
 		return ":ok"
@@ -155,11 +202,14 @@ func c18HashMaker(id ghash.Hash, elemSize int, elem func(r *rng) []byte, misSize
 			// a single short value (left-padded by the hashers)
 			msg = append(msg, elem(r)[bs-1-r.intn(bs-1):]...)
 		}
+		msg = c18Win(r, msg)
 		s := &c18Sess{args: []c18Arg{{"msg", &msg}}, concFirst: true}
 		s.call = func() string {
 			h.Reset()
 			h.Write(msg)
-			return hex.EncodeToString(h.Sum(nil))
+			d := h.Sum(nil) // the digest handed out is retained: later Reset / Write / Sum on the SAME hasher leave it alone
+			s.out(&d)
+			return hex.EncodeToString(d)
 		}
 		s.concCall = func() string {
 			hh := id.New()
@@ -194,6 +244,7 @@ func c18MDMaker(newCompressor func() ghash.Compressor, elemSize int, elem func(r
 		for i := c18Pick(shape, 1, 0, 6, func() int { return 1 + r.intn(3) }); i > 0; i-- {
 			msg = append(msg, elem(r)...)
 		}
+		iv, msg = c18Win(r, iv), c18Win(r, msg)
 		h := ghash.NewMerkleDamgardHasher(f, iv)
 		s := &c18Sess{args: []c18Arg{{"initialState", &iv}, {"msg", &msg}}}
 		scribble := func(b []byte) {
@@ -263,7 +314,7 @@ func c18SisMaker[E any, R interface{ Hash(v, res []E) error }](
 			}
 			return maxNb - r.intn(3)
 		})
-		v := make([]E, n)
+		v := c18Win(r, make([]E, n))
 		for i := range v {
 			v[i] = rnd(r)
 		}
@@ -271,10 +322,10 @@ func c18SisMaker[E any, R interface{ Hash(v, res []E) error }](
 		s.call = func() string {
 			res := make([]E, degree)
 			err := key.Hash(v, res)
-			out := deepHash(&res) + c18Err(err)
+			out := s.out(&res) + c18Err(err)
 			if c18Par(shape) { // the constructor: same arguments, same key
 				key2, err2 := newR(keySeed, p[0], p[1], maxNb)
-				out += deepHash(key2) + c18Err(err2)
+				out += s.out(key2) + c18Err(err2)
 			}
 			return out
 		}
@@ -305,7 +356,7 @@ func c18FFTMaker[E any](api c18FFTAPI[E]) c18Maker {
 		}
 		shift := api.rnd(r)
 		d := api.newDomain(uint64(n), kind, shift)
-		a := make([]E, n)
+		a := c18Win(r, make([]E, n))
 		for i := range a {
 			a[i] = api.rnd(r)
 		}
@@ -319,6 +370,7 @@ func c18FFTMaker[E any](api c18FFTAPI[E]) c18Maker {
 			return deepHash(&b)
 		}
 		var turn atomic.Uint64
+		var s *c18Sess
 		run := func(rot int) string {
 			var res [8]string
 			for j := 0; j < 8; j++ {
@@ -333,16 +385,16 @@ func c18FFTMaker[E any](api c18FFTAPI[E]) c18Maker {
 			api.transform(d, b, false, false, true, nbTasks)
 			api.transform(d, b, true, true, true, nbTasks)
 			ct, err, cti, err1 := api.cosetTables(d)
-			out += boolStr(deepHash(&b) == deepHash(&a)) + deepHash(&ct) + c18Err(err) + deepHash(&cti) + c18Err(err1)
+			out += boolStr(deepHash(&b) == deepHash(&a)) + s.out(&ct) + c18Err(err) + s.out(&cti) + c18Err(err1)
 			if c18Par(shape) {
 				d2 := api.newDomain(uint64(n), kind, shift)
 				tbl := make([]E, n-n/8+3)
 				api.buildExp(shift, tbl)
-				out += deepHash(d2) + deepHash(&tbl)
+				out += s.out(d2) + s.out(&tbl)
 			}
 			return out
 		}
-		s := &c18Sess{args: []c18Arg{{"domain", d}, {"a", &a}, {"shift", &shift}}}
+		s = &c18Sess{args: []c18Arg{{"domain", d}, {"a", &a}, {"shift", &shift}}}
 		s.call = func() string { return run(0) }
 		s.concCall = func() string { return run(int(turn.Add(1) * 3)) }
 		return s
@@ -375,15 +427,17 @@ func c18MerkleMaker(r *rng, shape int) *c18Sess {
 			hashes[i][j] = c18KoalaElem(r)
 		}
 	}
+	hashes = c18Win(r, hashes)
 	pos := []int{0, n - 1, r.intn(n)}
 	s := &c18Sess{args: []c18Arg{{"hashes", &hashes}}}
 	s.call = func() string {
 		mt := vortex.BuildMerkleTree(hashes)
 		root := mt.Root()
-		out := deepHash(&mt.Levels) + deepHash(&root)
+		out := s.out(&mt.Levels) + s.out(&root)
+		// the SAME tree opens several positions: every proof handed out is retained and verified again after the others
 		for _, i := range pos {
 			proof, err := mt.Open(i)
-			out += deepHash(&proof) + c18Err(err) + c18Err(proof.Verify(i, hashes[i], root))
+			out += s.out(&proof) + c18Err(err) + s.again(func() string { return c18Err(proof.Verify(i, hashes[i], root)) })
 		}
 		return out
 	}
@@ -415,24 +469,27 @@ func c18VortexMaker(r *rng, shape int) *c18Sess {
 	}
 	input := make([][]koalabear.Element, numRow)
 	for i := range input {
-		input[i] = make([]koalabear.Element, numCol)
+		input[i] = c18Win(r, make([]koalabear.Element, numCol))
 		for j := range input[i] {
 			input[i][j] = c18KoalaElem(r)
 		}
 	}
-	x, alpha := c18KoalaE4(r), c18KoalaE4(r)
-	selected := make([]int, nsel)
+	input = c18Win(r, input)
+	x, alpha, alpha2 := c18KoalaE4(r), c18KoalaE4(r), c18KoalaE4(r)
+	selected, selected2 := c18Win(r, make([]int, nsel)), c18Win(r, make([]int, nsel))
 	for i := range selected {
 		selected[i] = r.intn(numCol * rate)
+		selected2[i] = r.intn(numCol * rate)
 	}
-	s := &c18Sess{args: []c18Arg{{"params", params}, {"input", &input}, {"x", &x}, {"alpha", &alpha}, {"selectedColumns", &selected}}}
+	s := &c18Sess{args: []c18Arg{{"params", params}, {"input", &input}, {"x", &x}, {"alpha", &alpha}, {"selectedColumns", &selected},
+		{"alpha2", &alpha2}, {"selectedColumns2", &selected2}}}
 	s.call = func() string {
 		ps, err := vortex.Commit(params, input)
 		if err != nil {
 			return "commit" + c18Err(err)
 		}
 		root := ps.GetCommitment()
-		out := deepHash(&ps.EncodedMatrix) + deepHash(&ps.SisHashes) + deepHash(&ps.MerkleTree.Levels) + deepHash(&root)
+		out := s.out(&ps.EncodedMatrix) + s.out(&ps.SisHashes) + s.out(&ps.MerkleTree.Levels) + s.out(&root)
 		ps.OpenLinComb(alpha)
 		proof, err1 := ps.OpenColumns(selected)
 		ys := make([]fext.E4, numRow)
@@ -443,12 +500,27 @@ func c18VortexMaker(r *rng, shape int) *c18Sess {
 				nerr++
 			}
 		}
-		err2 := params.Verify(vortex.VerifierInput{Proof: proof, MerkleRoot: root, ClaimedValues: ys, EvaluationPoint: x,
-			Alpha: alpha, SelectedColumns: selected})
+		verify := func(proof *vortex.Proof, alpha fext.E4, selected []int) func() string {
+			return func() string {
+				return c18Err(params.Verify(vortex.VerifierInput{Proof: proof, MerkleRoot: root, ClaimedValues: ys, EvaluationPoint: x,
+					Alpha: alpha, SelectedColumns: selected}))
+			}
+		}
+		hp := s.out(proof)
+		ver := s.again(verify(proof, alpha, selected))
+		out += hp + c18Err(err1) + s.out(&ys) + fmt.Sprint(nerr) + ver
+		// the SAME committed state is opened again: for another coin and other columns, then for the first coin again.
+		// The proofs handed out earlier must stay what they were (and keep verifying), the repetition must reproduce the first.
+		ps.OpenLinComb(alpha2)
+		proof2, err3 := ps.OpenColumns(selected2)
+		out += s.out(proof2) + c18Err(err3) + s.again(verify(proof2, alpha2, selected2))
+		ps.OpenLinComb(alpha)
+		proof3, err4 := ps.OpenColumns(selected)
+		out += c18Mark(deepHash(proof3) == hp, "reopening-differs") + c18Err(err4) + c18Mark(deepHash(proof) == hp, "reopening-changed-earlier-proof")
 		cw := make([]koalabear.Element, numCol*rate)
 		params.EncodeReedSolomon(input[numRow-1], cw)
 		hx := vortex.EvalBasePolyHorner(input[0], x)
-		return out + deepHash(proof) + c18Err(err1) + deepHash(&ys) + fmt.Sprint(nerr) + c18Err(err2) + deepHash(&cw) + deepHash(&hx)
+		return out + s.out(&cw) + s.out(&hx)
 	}
 	return s
 }
